@@ -3,6 +3,7 @@ package keymap
 import (
 	"sort"
 	"strings"
+	"unicode/utf8"
 
 	"github.com/reeflective/readline/inputrc"
 	"github.com/reeflective/readline/internal/core"
@@ -81,6 +82,24 @@ func MatchMain(eng *Engine) (bind inputrc.Bind, command func(), prefix bool) {
 		core.MatchedKeys(eng.keys, read)
 	}
 
+	// There is one self-insert bind per printable ASCII character only: the
+	// first byte of a multibyte UTF-8 character does not match anything.
+	// Read the whole character, and insert it if the keymap inserts text.
+	if command == nil && !prefix && len(read) == 1 && read[0] >= utf8.RuneSelf && eng.insertsText() {
+		if char, complete := eng.readCharacter(read[0]); complete {
+			core.MatchedKeys(eng.keys, char)
+
+			bind = inputrc.Bind{Action: "self-insert"}
+			eng.active = bind
+			command = eng.resolve(bind)
+		} else if len(char) > 0 {
+			// Some of its bytes have not been read yet.
+			core.MatchedPrefix(eng.keys, char...)
+
+			return inputrc.Bind{}, nil, true
+		}
+	}
+
 	// Non-incremental search mode should always insert the keys
 	// if they did not exactly match one of the valid commands.
 	if eng.nonIncSearch && (command == nil || prefix) {
@@ -100,6 +119,48 @@ func MatchMain(eng *Engine) (bind inputrc.Bind, command func(), prefix bool) {
 	}
 
 	return bind, command, prefix
+}
+
+// insertsText returns true if undefined keys are text to insert in the main keymap.
+func (m *Engine) insertsText() bool {
+	return m.IsEmacs() || m.main == ViInsert || m.nonIncSearch
+}
+
+// readCharacter reads the bytes following the first one of a multibyte UTF-8
+// character. It returns all the bytes of the character, and false if some are
+// still missing in the key stack, or nil if the bytes are not valid UTF-8.
+func (m *Engine) readCharacter(first byte) (char []byte, complete bool) {
+	length := 0
+
+	switch {
+	case first&0xE0 == 0xC0:
+		length = 2
+	case first&0xF0 == 0xE0:
+		length = 3
+	case first&0xF8 == 0xF0:
+		length = 4
+	default:
+		return nil, false
+	}
+
+	char = append(char, first)
+
+	for len(char) < length {
+		key, empty := core.PeekKey(m.keys)
+		if empty {
+			return char, false
+		}
+
+		// Not a continuation byte: drop the invalid bytes.
+		if key&0xC0 != 0x80 {
+			return nil, false
+		}
+
+		core.PopKey(m.keys)
+		char = append(char, key)
+	}
+
+	return char, true
 }
 
 func (m *Engine) dispatchKeys(binds map[string]inputrc.Bind) (bind inputrc.Bind, prefix bool, read, matched []byte) {
